@@ -33,8 +33,9 @@ type flight struct {
 
 type ibcDriver struct {
 	*driver
-	voucher token
-	pend    []*flight // per depth; nil = nothing in flight
+	voucher  token
+	pend     []*flight // per depth; nil = nothing in flight
+	lastPend string    // the in-flight packet after the latest operation (part of the state digest)
 }
 
 func newIBCDriver(tier string) *ibcDriver {
@@ -124,6 +125,11 @@ func (d *ibcDriver) ops(w *world.World, depth int, path []string) []engine.Op {
 			r := f(p, res)
 			if r != "skip" {
 				res.Counters["B|"+name+"|"+r]++
+			}
+			d.lastBurned = d.burned[len(p)].String()
+			d.lastPend = "none"
+			if fl := d.pend[len(p)]; fl != nil {
+				d.lastPend = fmt.Sprintf("%s|%s|%s|%v|%d|%s", fl.tok.name, fl.amt, fl.receiver, fl.received, fl.p.P.Sequence, fl.srcCh)
 			}
 			return r
 		}})
